@@ -335,7 +335,7 @@ func icptStr(fs []can.Frame) string {
 
 // runs the idiomatic client loop until Receive has returned false twice (the second call shows
 // that reception stays ended); returns the read log and the events
-func runScript(script []entry, viaFile bool) ([]string, []string) {
+func runScript(script []entry, viaFile bool, maxStops int) ([]string, []string) {
 	total := 0
 	for _, e := range script {
 		total += len(e.data)
@@ -351,7 +351,7 @@ func runScript(script []entry, viaFile bool) ([]string, []string) {
 	r := socketcan.NewReceiver(rc, socketcan.ReceiverFrameInterceptor(func(f can.Frame) { icpt = append(icpt, f) }))
 	var events []string
 	stops := 0
-	limit := total/16 + 4
+	limit := total/16 + 2 + maxStops
 	for calls := 0; ; calls++ {
 		if calls >= limit {
 			events = append(events, "H")
@@ -368,7 +368,7 @@ func runScript(script []entry, viaFile bool) ([]string, []string) {
 		} else {
 			events = append(events, "F:"+icptStr(icpt)+":"+frameStr(r.Frame())+":"+code(r.Err()))
 			stops++
-			if stops == 2 {
+			if stops == maxStops {
 				break
 			}
 		}
@@ -388,11 +388,17 @@ var (
 )
 
 func emitScript(script []entry) {
-	log, events := runScript(script, false)
+	// the client normally stops after the second false; every second fault script is POLLED on: Receive
+	// is called until it has returned false four times while the scripted stream continues after the fault
+	maxStops := 2
+	if viaAll && nScripts%2 == 0 {
+		maxStops = 4
+	}
+	log, events := runScript(script, false, maxStops)
 	n := len(events)
 	fmt.Fprintf(out, "S %d %s | %s\n", n, strings.Join(log, " "), strings.Join(events, " "))
 	if nScripts++; viaAll || nScripts%viaEvery == 0 {
-		log, events = runScript(withPathErrors(script), true)
+		log, events = runScript(withPathErrors(script), true, maxStops)
 		fmt.Fprintf(out, "SF %d %s | %s\n", len(events), strings.Join(log, " "), strings.Join(events, " "))
 	}
 }
@@ -551,16 +557,71 @@ func emitSplit(rng *rand.Rand, blocks [][16]byte) {
 	fmt.Fprintf(out, "Q %s | %s | %s\n", strings.Join(hx, " "), strings.Join(rd.log, " "), strings.Join(rx, " "))
 }
 
+// a block sequence through a read script WITH a fault after which the stream continues; the client
+// keeps calling Receive. Every block completed by the bytes delivered up to and including the
+// faulting Read must decode per C06; after that nothing is decoded any more (reception stays ended).
+func emitSplitFault(rng *rand.Rand, blocks [][16]byte) {
+	var all []byte
+	var hx []string
+	for _, b := range blocks {
+		all = append(all, b[:]...)
+		hx = append(hx, hex.EncodeToString(b[:]))
+	}
+	var script []entry
+	switch rng.Intn(4) {
+	case 0:
+		script = []entry{{data: all}}
+	case 1:
+		script = constChunks(all, 1+rng.Intn(40))
+	case 2:
+		script = randomPartition(rng, all, 0.12, 0)
+	case 3:
+		c := 1 + rng.Intn(len(all)-1)
+		script = []entry{{data: all[:c]}, {data: all[c:]}}
+	}
+	var fault error
+	switch rng.Intn(4) {
+	case 0:
+		fault = io.EOF
+	case 1:
+		fault = inj(1 + rng.Intn(6))
+	default:
+		fault = realErrs[rng.Intn(len(realErrs))]
+	}
+	at := rng.Intn(len(script) + 1)
+	if at < len(script) && rng.Intn(2) == 0 {
+		script[at].err = fault // the error comes together with data
+	} else {
+		script = cat(script[:at], []entry{{err: fault}}, script[at:])
+	}
+	rd := &scriptReader{script: script}
+	r := socketcan.NewReceiver(rd)
+	var rx []string
+	for k := 0; k < len(blocks)+3; k++ {
+		ok, panicked := safeReceive(r)
+		if panicked {
+			rx = append(rx, "P")
+			break
+		}
+		rx = append(rx, fmt.Sprintf("%s:%s:%s:%s", b01(ok), frameStr(r.Frame()), b01(r.HasErrorFrame()), errFrameStr(r.ErrorFrame())))
+	}
+	fmt.Fprintf(out, "QF %s | %s | %s\n", strings.Join(hx, " "), strings.Join(rd.log, " "), strings.Join(rx, " "))
+}
+
 // a share of the R blocks is ALSO delivered unaligned: collected into batches of 1..4 blocks
 var (
-	splitBatch [][16]byte
-	splitWant  = 1
+	splitBatch    [][16]byte
+	splitWant     = 1
+	nSplitBatches int
 )
 
 func alsoSplit(rng *rand.Rand, b [16]byte) {
 	splitBatch = append(splitBatch, b)
 	if len(splitBatch) >= splitWant {
 		emitSplit(rng, splitBatch)
+		if nSplitBatches++; nSplitBatches%3 == 0 { // a third of the batches again with a fault in the read script
+			emitSplitFault(rng, splitBatch)
+		}
 		splitBatch = splitBatch[:0]
 		splitWant = 1 + rng.Intn(4)
 	}
@@ -986,6 +1047,9 @@ func c07(seed int64, thorough bool) {
 		if ne%5 == 0 {
 			return errs[1+(ne/5)%(len(errs)-1)]
 		}
+		if ne%3 == 0 { // real error kinds, among them read-deadline (Timeout) errors a client may poll through
+			return realErrs[(ne/3)%len(realErrs)]
+		}
 		return inj(ne % 7)
 	}
 	trs := []int{0, 5, 15}
@@ -1075,6 +1139,8 @@ func c07(seed int64, thorough bool) {
 	c07process(rng, thorough)
 	// 9. Write failing with real error kinds x every byte count 0..16, later Writes of the call succeed
 	emitTransmitFaults(rng, randFrame, thorough)
+	// 13. histories of calls by several Transmitters on one conn with repeated contexts
+	c07histories(rng, thorough)
 	// 12. packet connections: one datagram per Read, what does not fit the offered buffer is discarded
 	c07packets(rng, thorough)
 	// 11. a Transmitter and a Receiver on one shared connection of every kind Dial returns
@@ -1913,6 +1979,94 @@ func c07packets(rng *rand.Rand, thorough bool) {
 			bs = bs[k:]
 		}
 		emitPacketsUDP(rng, cuts)
+	}
+}
+
+// ---------------------------------------------------------------- C07: transmit histories on one shared conn
+
+// records which of the known deadlines SetWriteDeadline was given
+type histConn struct {
+	fakeConn
+	deadlines []time.Time // deadlines[k-1] = deadline of context k
+}
+
+func (c *histConn) SetWriteDeadline(t time.Time) error {
+	ev := "D!"
+	for k, d := range c.deadlines {
+		if t.Equal(d) {
+			ev = fmt.Sprintf("D%d", k+1)
+		}
+	}
+	c.events = append(c.events, ev)
+	return c.deadlineAns
+}
+
+// 1..3 Transmitters on ONE conn, contexts 0 (no deadline), 1, 2 reused along the history (the same one
+// twice in a row, alternating, ...), SetWriteDeadline / Write faults at random steps: C07_transmit_cases
+// holds for EVERY call - a call whose context has a deadline sets ITS deadline on the conn before it writes
+func emitTransmitHistory(rng *rand.Rand, ntx int, ncalls int, pattern int) {
+	base := time.Now().Add(time.Duration(1+rng.Intn(1000)) * time.Hour)
+	conn := &histConn{deadlines: []time.Time{base, base.Add(time.Duration(1+rng.Intn(100)) * time.Second)}}
+	ctxs := []context.Context{context.Background()}
+	for _, d := range conn.deadlines {
+		ctx, cancel := context.WithDeadline(context.Background(), d)
+		defer cancel()
+		ctxs = append(ctxs, ctx)
+	}
+	txs := make([]*socketcan.Transmitter, ntx)
+	for i := range txs {
+		i := i
+		txs[i] = socketcan.NewTransmitter(conn, socketcan.TransmitterFrameInterceptor(func(f can.Frame) {
+			conn.events = append(conn.events, fmt.Sprintf("I%d.%s", i, frameStr(f)))
+		}))
+	}
+	var calls, events []string
+	k := 1 + rng.Intn(2)
+	for n := 0; n < ncalls; n++ {
+		switch pattern {
+		case 0: // the same context again and again, now and then another one
+			if rng.Intn(4) == 0 {
+				k = rng.Intn(3)
+			}
+		case 1: // alternating deadlines
+			k = 1 + n%2
+		case 2:
+			k = rng.Intn(3)
+		}
+		i := rng.Intn(ntx)
+		if pattern == 1 {
+			i = n % ntx
+		}
+		a := txAnswers{writeN: 16}
+		switch rng.Intn(8) {
+		case 0:
+			a.deadlineAns = inj(5)
+		case 1:
+			a.deadlineAns = realErrs[rng.Intn(len(realErrs))]
+		case 2:
+			a.writeAns, a.writeN = inj(6), rng.Intn(17)
+		}
+		f := randFrame(rng)
+		conn.deadlineAns, conn.writeAns, conn.writeN, conn.laterOK, conn.nw = a.deadlineAns, a.writeAns, a.writeN, true, 0
+		conn.events = conn.events[:0]
+		calls = append(calls, fmt.Sprintf("%d:%s;%d;%s;%x;%s", i, frameStr(f), k, errCode(a.deadlineAns), a.writeN, errCode(a.writeAns)))
+		err := txs[i].TransmitFrame(ctxs[k], f)
+		events = append(events, strings.Join(append(append([]string(nil), conn.events...), "R"+causeCode(err)), ","))
+	}
+	fmt.Fprintf(out, "Y %s | %s\n", strings.Join(calls, " "), strings.Join(events, " "))
+}
+
+func c07histories(rng *rand.Rand, thorough bool) {
+	n := 150
+	if thorough {
+		n = 3000
+	}
+	for i := 0; i < n; i++ {
+		for ntx := 1; ntx <= 3; ntx++ {
+			for pattern := 0; pattern < 3; pattern++ {
+				emitTransmitHistory(rng, ntx, 3+rng.Intn(10), pattern)
+			}
+		}
 	}
 }
 
